@@ -139,6 +139,13 @@ pub fn run(opts: &Opts) -> Run {
         (20000, 400_000, 6144, "-"),
         (1000, 1_000_001, 8192, "*100"),
         (3000, 655_360 + 16, 10_000, "-"),
+        // size estimates of 512 KiB and more for which the SAMPLE (estimate / 256 bytes) ends in a chunk of 1 … 15 bytes
+        // (shorter than a k-mer), with a source longer than the sample — over-estimating is what the documentation recommends
+        (2300, 525_568, 64, "-"),
+        (2300, 524_288 + 256 * 15, 64, "-"),
+        (5000, 525_568 + 256 * 2048, 4096, "-"),
+        (2300, 524_288 + 256, 1000, "*100"),
+        (2300, 524_288, 64, "-"),
     ] {
         grid.push((l, e, d, s.to_string(), 0));
     }
